@@ -101,7 +101,8 @@ C10Step(m, o) ==
              \cup V(\A n \in rejoins : Wins(n.id, o.pre.id) \/ n.id = o.post.id, "Rejoin-with-non-winning-identity")
              \cup V(downCertain =>
                        \/ (HasNotif(o.out, "Defunct") /\ o.hpost.conn = "U")
-                       \/ (rejoins # {} /\ idChanged /\ Wins(o.post.id, o.pre.id) /\ oldDownGossiped),
+                       \/ (rejoins # {} /\ idChanged /\ Wins(o.post.id, o.pre.id)
+                           /\ (oldDownGossiped \/ o.hpre.conn = "U")),   \* already defunct: its death was gossiped then
                     "learned-own-death-but-neither-renewed-(with-Down-gossip)-nor-defunct")
              \* a defunct instance does not carry on as an active member: it neither probes
              \* nor answers probes / join requests (gossip reacting to a suspicion and
